@@ -412,6 +412,9 @@ fn run_inner(case: &Case, root: &Path, thorough: bool) -> Result<Stats, Failure>
     let mut start = 0usize;
     let mut consumed_by_reads = 0u64;
     let mut hangs_here = 0u32;
+    // a fault that timed out once is retried alone with a long budget before it counts as a hang
+    // (on an overloaded machine a healthy worker can be starved for longer than the short budget)
+    let mut retry_idx: Option<usize> = None;
     while start < nfaults {
         if hangs_here >= 4 {
             // every hang costs the full time-out: give up on this directory, the run ends with exit 2
@@ -439,7 +442,8 @@ fn run_inner(case: &Case, root: &Path, thorough: bool) -> Result<Stats, Failure>
         });
         let mut in_flight: Option<usize> = None;
         loop {
-            match rx.recv_timeout(std::time::Duration::from_secs(FAULT_TIMEOUT_S)) {
+            let budget = if retry_idx.is_some() && retry_idx == in_flight { FAULT_RETRY_TIMEOUT_S } else { FAULT_TIMEOUT_S };
+            match rx.recv_timeout(std::time::Duration::from_secs(budget)) {
                 Ok(line) => {
                     if let Some(rest) = line.strip_prefix("B ") {
                         in_flight = rest.trim().parse().ok();
@@ -482,6 +486,13 @@ fn run_inner(case: &Case, root: &Path, thorough: bool) -> Result<Stats, Failure>
                     // a hang is neither an answer nor a violation: remember it (the check ends with exit 2
                     // unless a real violation is found), restart the worker behind this fault, carry on
                     let _ = child.kill();
+                    if in_flight.is_some() && retry_idx != in_flight {
+                        retry_idx = in_flight;
+                        start = in_flight.unwrap_or(start);
+                        in_flight = None;
+                        stats.bump("c10.timeout_retried");
+                        break;
+                    }
                     stats.bump("c10.hang");
                     hangs_here += 1;
                     note_hang(format!("{:?}", in_flight.map(|i| job.faults[i].clone())));
@@ -512,6 +523,7 @@ fn run_inner(case: &Case, root: &Path, thorough: bool) -> Result<Stats, Failure>
 }
 
 const FAULT_TIMEOUT_S: u64 = 20;
+const FAULT_RETRY_TIMEOUT_S: u64 = 120;
 
 static HANGS: std::sync::Mutex<Vec<String>> = std::sync::Mutex::new(Vec::new());
 
